@@ -195,6 +195,23 @@ theorem ukf_run_eq_kf_run (pinv : Mat ℝ p p → Mat ℝ p p)
     have := ih (fun c' hc' => hs c' (by simp [hc'])) (c.2.kalman b) (c.2.kalman_cov_psd hl hb)
     simpa only [runUKF, kalmanRun, List.map_cons, List.foldl_cons, hpost] using this
 
+/-- **Object reuse = fresh object (statelessness), any system.** A run is a plain fold of the one-call function:
+splitting a history anywhere and continuing from the intermediate posterior — e.g. with a freshly constructed filter
+— gives the same result, for arbitrary (non-linear) systems and arbitrary per-call arguments. Anything a filter object
+remembers between calls (caches of weights, Jacobians, factors) must therefore be invisible. -/
+theorem run_append {α : Type} [Scalar α] (pinv : Mat α p p → Mat α p p) (msqrt : Mat α n n → Mat α n n)
+    (s₁ s₂ : List (Step α n m p)) (c₁ c₂ : List (α × Step α n m p)) (pr : Post α n) :
+    runEKF pinv (s₁ ++ s₂) pr = runEKF pinv s₂ (runEKF pinv s₁ pr) ∧
+    runUKF pinv msqrt (c₁ ++ c₂) pr = runUKF pinv msqrt c₂ (runUKF pinv msqrt c₁ pr) := by
+  simp [runEKF, runUKF, List.foldl_append]
+
+/-- the last call of a run sees only the posterior of the calls before it and its own arguments -/
+theorem run_last_call {α : Type} [Scalar α] (pinv : Mat α p p → Mat α p p) (msqrt : Mat α n n → Mat α n n)
+    (ss : List (Step α n m p)) (s : Step α n m p) (cs : List (α × Step α n m p)) (kk : α) (pr : Post α n) :
+    runEKF pinv (ss ++ [s]) pr = ekf pinv s (runEKF pinv ss pr) ∧
+    runUKF pinv msqrt (cs ++ [(kk, s)]) pr = ukf pinv msqrt kk s (runUKF pinv msqrt cs pr) := by
+  simp [runEKF, runUKF, List.foldl_append]
+
 /-- **UKF covariance is valid whenever the centre weight is non-negative** (`k ≥ 0`, `n + k > 0`), for an
 arbitrary non-linear system: the returned covariance is symmetric positive semidefinite. Nothing is assumed
 about the prior covariance or the first square root. -/
